@@ -120,7 +120,7 @@ def water_scenarios(tier, bases=None, menus=None, full=True):
         yield from weather_scenarios(bases, stride=4)
     else:
         yield from config_scenarios(bases, menus, 2)
-        yield from weather_scenarios(bases, stride=1, pairs=True)
+        yield from weather_scenarios(bases, stride=1, pairs=True, symbols=("S", "M", "D", "C", "Z", "T"))
         if full:
             yield from full_length_scenarios(FULL_VARIANTS)
 
